@@ -218,7 +218,7 @@ def run(step, repo, tier='quick', seed=0):
                  'tags': sorted(tags), 'message': '; '.join(d[0] for d in descs),
                  'rendered': 'Kani harness %s: VERIFICATION %s %s\n' % (m['name'], r['result'], r['note']) + '\n'.join('Failed check: %s (%s:%d in %s)' % d for d in descs)}
             pbh = m['name'] if m.get('expect', 'pass') == 'pass' else m.get('playback_harness')
-            if pid in tags and pbh and not step.get('no_playback'):
+            if pid in tags and pbh and not step.get('no_playback') and sum(1 for x in res['failures'] if x.get('counterexample')) < 2:
                 pb = playback(tmp, 'verif_kani::' + pbh, fargs)
                 if pb:
                     f['counterexample'] = {'harness': m['name'], 'inputs': pb['values_in_order_of_kani_any_calls'], 'input_schema': m.get('inputs')}
